@@ -6,6 +6,15 @@ NOTES = ('All checks are ./check <id>; each rebuilds a source-only overlay from 
 NOT_CLAIMED = {}
 
 PROPS = {
+    'C07': {
+        'modules': ['contracts.C07_streams', 'contracts.C07_asgi_stream'],
+        'level': 'proof',
+        'level_text': 'Class invariant (budget = Content-Length minus bytes returned; nothing pulled from the server is lost; position = bytes returned) '
+                      'assumed at entry and proved at exit of every public operation of the WSGI and ASGI BoundedStream, with loop invariants, for all '
+                      'bodies, Content-Length values, server chunkings/event shapes and sizes; any history of operations follows by induction.',
+        'level_note': 'Trusted: server-side stubs (wsgi.input read/readline return <= n bytes of the remaining body; ASGI receive events), pyvc encoding, '
+                      'z3. Not covered: termination; asgi.Request.stream / Request.bounded_stream wiring is by reading (one constructor call each).',
+    },
     'C16': {
         'modules': ['contracts.C16_static'],
         'level': 'proof',
